@@ -1,45 +1,103 @@
 // Dense softmax_cross_entropy(Node x, Node t, dim): gradient w.r.t. x versus central finite
-// differences, for a normalised target (must agree) and an unnormalised one (known finding D11).
+// differences of the implementation's own forward, on devices::Naive and devices::Eigen, at several
+// points x, for
+//   * normalised targets (sum t = 1): backward must agree with the finite difference
+//       -> `ok normalised-t <dev> x=(..) t=(..)`   or   `FAIL normalised-t ...`
+//   * targets with sum t != 1 (known finding D11): the registered defect is EXACTLY
+//       backward = softmax(x) - t     while     d/dx forward = softmax(x) * sum(t) - t
+//     (Coq: C01_real_sce_derivative_general).  `D11 mismatch ...` is printed only when both equations
+//     hold on every coordinate (softmax computed here in double); when backward agrees with the finite
+//     difference (the defect is gone) `ok sum-t-not-1 ...`; anything else is `FAIL sum-t-not-1 ...`
+//     (a wrong gradient that is NOT the registered term must not hide behind the finding).
+// Last line: `DONE normalised=<probes> ok=<passed> other=<probes>`; a missing DONE line or a non-zero
+// exit status means the probe itself failed (engines/c01.py checks both).
 #include <primitiv/primitiv.h>
 #include <cmath>
 #include <iostream>
+#include <sstream>
 using namespace primitiv;
 namespace F = primitiv::functions;
-static double fwd(Parameter &px, const std::vector<float> &t, Device &dev) {
+typedef std::vector<float> V;
+
+static std::string show(const V &v) {
+  std::ostringstream s; s << "(";
+  for (size_t i = 0; i < v.size(); ++i) s << (i ? "," : "") << v[i];
+  s << ")"; return s.str();
+}
+static double fwd(Parameter &px, const V &t, Device &dev) {
   Graph g; Graph::set_default(g);
   Node x = F::parameter<Node>(px);
-  Node tt = F::input<Node>(Shape({2}), t, dev);
+  Node tt = F::input<Node>(Shape({static_cast<std::uint32_t>(t.size())}), t, dev);
   return F::softmax_cross_entropy(x, tt, 0).to_vector()[0];
 }
-static int probe(const char *tag, std::vector<float> t, Device &dev) {
-  std::vector<float> xv = {0.5f, -0.25f};
-  Parameter px(Shape({2}), xv, dev);
+static bool close(double a, double b, double rel) { return std::fabs(a - b) <= rel * std::fmax(1.0, std::fmax(std::fabs(a), std::fabs(b))); }
+
+// 0: backward = finite difference; 1: exactly the D11 term; 2: anything else.  `detail` describes the worst coordinate.
+static int probe(const V &xv, const V &t, Device &dev, std::string &detail) {
+  const std::uint32_t n = static_cast<std::uint32_t>(xv.size());
+  Parameter px(Shape({n}), xv, dev);
   {
     Graph g; Graph::set_default(g);
     Node x = F::parameter<Node>(px);
-    Node tt = F::input<Node>(Shape({2}), t, dev);
+    Node tt = F::input<Node>(Shape({n}), t, dev);
     Node y = F::softmax_cross_entropy(x, tt, 0);
     px.reset_gradient();
     y.backward();
   }
-  std::vector<float> gr = px.gradient().to_vector();
-  int bad = 0;
-  for (int i = 0; i < 2; ++i) {
+  const V gr = px.gradient().to_vector();
+  double mx = xv[0], z = 0, st = 0;
+  for (float v : xv) mx = std::fmax(mx, v);
+  for (float v : xv) z += std::exp(v - mx);
+  for (float v : t) st += v;
+  bool all_fd = true, all_d11 = true;
+  std::ostringstream d;
+  for (std::uint32_t i = 0; i < n; ++i) {
     const float h = 1e-2f;
-    std::vector<float> p = xv, m = xv; p[i] += h; m[i] -= h;
-    px.value().reset_by_vector(p); double fp = fwd(px, t, dev);
-    px.value().reset_by_vector(m); double fm = fwd(px, t, dev);
+    V p = xv, m = xv; p[i] += h; m[i] -= h;
+    px.value().reset_by_vector(p); const double fp = fwd(px, t, dev);
+    px.value().reset_by_vector(m); const double fm = fwd(px, t, dev);
     px.value().reset_by_vector(xv);
-    double fd = (fp - fm) / (2 * h);
-    if (std::fabs(fd - gr[i]) > 2e-2 * std::max(1.0, std::fabs(fd))) { std::cout << tag << " elem " << i << " backward=" << gr[i] << " finite-diff=" << fd << "\n"; ++bad; }
+    const double fd = (fp - fm) / (static_cast<double>(p[i]) - static_cast<double>(m[i]));
+    const double sm = std::exp(xv[i] - mx) / z;
+    const bool is_fd = close(gr[i], fd, 2e-3);
+    const bool is_d11 = close(gr[i], sm - t[i], 2e-4) && close(fd, sm * st - t[i], 2e-3);
+    if (!is_fd || !is_d11) d << " elem " << i << " backward=" << gr[i] << " finite-diff=" << fd << " softmax-t=" << sm - t[i] << " softmax*sum(t)-t=" << sm * st - t[i];
+    all_fd = all_fd && is_fd;
+    all_d11 = all_d11 && is_d11;
   }
-  return bad;
+  detail = d.str();
+  return all_fd ? 0 : (all_d11 ? 1 : 2);
 }
+
 int main() {
-  devices::Naive dev; Device::set_default(dev);
+  devices::Naive naive; devices::Eigen eigen;
+  const std::vector<V> xs2 = {{0.5f, -0.25f}, {-1.5f, 2.0f}, {3.0f, 2.5f}};
+  const std::vector<V> ts2 = {{0.25f, 0.75f}, {1.0f, 0.0f}, {0.5f, 0.5f}};
+  const std::vector<V> xs3 = {{0.5f, -0.25f, 1.0f}, {-2.0f, 0.0f, 0.75f}};
+  const std::vector<V> ts3 = {{0.125f, 0.5f, 0.375f}, {0.0f, 0.0f, 1.0f}};
+  const std::vector<V> us2 = {{2.0f, 0.0f}, {0.25f, 0.25f}, {1.0f, 1.5f}};     // sum t != 1
+  int nn = 0, nok = 0, no = 0;
   try {
-    if (probe("FAIL normalised-t", {0.25f, 0.75f}, dev) == 0) std::cout << "ok normalised-t\n";
-    probe("D11 mismatch t=(2,0)", {2.0f, 0.0f}, dev);
+    for (int di = 0; di < 2; ++di) {
+      Device &dev = di ? static_cast<Device &>(eigen) : static_cast<Device &>(naive);
+      Device::set_default(dev);
+      const char *dn = di ? "eigen" : "naive";
+      for (int dim3 = 0; dim3 < 2; ++dim3)
+        for (const V &x : (dim3 ? xs3 : xs2))
+          for (const V &t : (dim3 ? ts3 : ts2)) {
+            std::string det; ++nn;
+            if (probe(x, t, dev, det) == 0) { ++nok; std::cout << "ok normalised-t " << dn << " x=" << show(x) << " t=" << show(t) << "\n"; }
+            else std::cout << "FAIL normalised-t " << dn << " x=" << show(x) << " t=" << show(t) << det << "\n";
+          }
+      for (const V &x : xs2)
+        for (const V &t : us2) {
+          std::string det; ++no;
+          const int r = probe(x, t, dev, det);
+          const char *tag = r == 0 ? "ok sum-t-not-1 " : (r == 1 ? "D11 mismatch " : "FAIL sum-t-not-1 ");
+          std::cout << tag << dn << " x=" << show(x) << " t=" << show(t) << det << "\n";
+        }
+    }
   } catch (Error &e) { std::cout << "FAIL exception " << e.what() << "\n"; }
+  std::cout << "DONE normalised=" << nn << " ok=" << nok << " other=" << no << "\n";
   return 0;
 }
